@@ -7,8 +7,8 @@ From GoCose.Gen Require Import Generated.
 Import ListNotations.
 Open Scope Z_scope.
 
-(* the values: integers of int64, valid UTF-8 text, byte strings, booleans, nil, arrays and maps
-   with integer / text keys (the keys a Go map[any]any of COSE headers has), at any nesting depth *)
+(* the values: integers of int64, valid UTF-8 text, byte strings, booleans, nil, float64 of any bit pattern,
+   arrays and maps with integer / text keys (the keys a Go map[any]any of COSE headers has), at any nesting depth *)
 Definition key_ok (g : gv) : bool := match g with GInt _ _ | GStr _ => true | _ => false end.
 
 Fixpoint keys_ok (l : list gv) : bool :=
@@ -23,6 +23,7 @@ Fixpoint simple (g : gv) : bool :=
   | GArr l => (len l <? two64) && (fix all (l : list gv) : bool := match l with [] => true | y :: r => simple y && all r end) l
   | GMap l => (len l <? two64) && keys_ok l &&
               (fix all (l : list gv) : bool := match l with [] => true | y :: r => simple y && all r end) l
+  | GFloat b => (0 <=? b) && (b <? two64)       (* float64, any bit pattern *)
   | _ => false
   end.
 
@@ -48,6 +49,7 @@ Inductive rel : gv -> gv -> Prop :=
 | rel_nilbytes : rel GNilBytes GNil                        (* a nil []byte is encoded as null *)
 | rel_nil : rel GNil GNil
 | rel_bool b : rel (GBool b) (GBool b)
+| rel_float b : rel (GFloat b) (GFloat (norm_f64 b))        (* the same float64; every NaN comes back as the one quiet NaN *)
 | rel_arr l l' : Forall2 rel l l' -> rel (GArr l) (GArr l')
 | rel_map l l' lp :                                         (* maps: the same entries, in some order *)
     Permutation (pairs l) lp ->
@@ -341,6 +343,18 @@ Proof.
     exists (WMap ww tl), (GMap dl). split; [reflexivity|]. split; [exact G|].
     split; [cbn [notags]; clear -Nl; induction tl as [|w tl IH]; [reflexivity|]; cbn [forallb] in Nl; apply andb_true_iff in Nl as [A B]; rewrite A; apply IH; exact B|].
     split; [rewrite dec_map, Dl; cbn [bind]; rewrite Nd; reflexivity|econstructor; eauto].
+  - (* GFloat *) cbn [enc] in He. inversion He; subst. apply andb_true_iff in Hp as [H1 H2].
+    destruct (enc_float_ser b) as [(-> & En)|[(-> & En & Eb)|[(-> & En & Eb)|(-> & En & _)]]].
+    + exists (WSim W2 32256), (GFloat nan64). repeat split; try reflexivity.
+      replace nan64 with (norm_f64 b) by (unfold norm_f64; rewrite En; reflexivity). constructor.
+    + exists (WSim W2 31744), (GFloat b). repeat split; try reflexivity; [subst b; reflexivity|].
+      replace b with (norm_f64 b) at 2 by (unfold norm_f64; rewrite En; reflexivity). constructor.
+    + exists (WSim W2 64512), (GFloat b). repeat split; try reflexivity; [subst b; reflexivity|].
+      replace b with (norm_f64 b) at 2 by (unfold norm_f64; rewrite En; reflexivity). constructor.
+    + exists (WSim W8 b), (GFloat b). repeat split; try reflexivity.
+      * cbn [wf sim_ok fits]. unfold two64 in *. lia.
+      * cbn [dec]. unfold norm_f64. rewrite En. reflexivity.
+      * replace b with (norm_f64 b) at 2 by (unfold norm_f64; rewrite En; reflexivity). constructor.
 Qed.
 
 (* maps, with what the header decoders use *)
@@ -375,4 +389,22 @@ Example enc_dec_example :
   | _ => False
   end.
 Proof. split; vm_compute; reflexivity. Qed.
+
+(* floats inside nested values: a finite number keeps its 64 bits, the infinities travel in half precision, and a
+   NaN with a payload comes back as the quiet NaN *)
+Example enc_dec_float_example :
+  let g := GMap [GInt KInt 33; GArr [GFloat 4609434218613702656; GFloat 9218868437227405312; GFloat 18442240474082181120;
+                                     GFloat 9218868437227405313; GFloat 0; GFloat 9223372036854775808]] in
+  simple g = true /\
+  enc false g = Acc [161; 24; 33; 134; 251; 63; 248; 0; 0; 0; 0; 0; 0; 249; 124; 0; 249; 252; 0; 249; 126; 0;
+                     251; 0; 0; 0; 0; 0; 0; 0; 0; 251; 128; 0; 0; 0; 0; 0; 0; 0] /\
+  match enc false g with
+  | Acc b => match parse_full b with
+             | Some w => dec true w = Acc (GMap [GInt KInt64 33; GArr [GFloat 4609434218613702656; GFloat 9218868437227405312;
+                                                 GFloat 18442240474082181120; GFloat nan64; GFloat 0; GFloat 9223372036854775808]])
+             | None => False
+             end
+  | _ => False
+  end.
+Proof. split; [|split]; vm_compute; reflexivity. Qed.
 Print Assumptions enc_dec.
